@@ -479,6 +479,20 @@ def flatnonzero(a):
     return where(a)[0]
 
 
+def nonzero(a):
+    """np.nonzero(a) == np.where(a) (one argument)"""
+    return where(_arr(a))
+
+
+def swapaxes(a, axis1, axis2):
+    a = _arr(a)
+    if a.ndim == 2 and {axis1 % 2, axis2 % 2} == {0, 1}:
+        return a.T
+    if axis1 == axis2:
+        return a
+    raise Unsupported('swapaxes pattern')
+
+
 def full_like(a, fill_value, dtype=None):
     a = _arr(a)
     k = _kind_from_dtype(dtype, a.kind)
@@ -1115,6 +1129,27 @@ def _rowcount(a):
     return SArr((n0,), lambda i_: CNT(i_), 'i')
 
 
+def _sum_keep(a, axis=None, keepdims=False):
+    """np.sum / ndarray.sum with keepdims: the reduced axis is kept with length 1 (ASSUMED numpy contract, cross-checked)"""
+    r = sum_(a, axis)
+    if keepdims:
+        if axis is None or not isinstance(r, SArr):
+            raise Unsupported('sum(keepdims=True) without an axis')
+        nd = _arr(a).ndim
+        ax = axis + nd if axis < 0 else axis
+        return r[(slice(None),) * ax + (None,)]
+    return r
+
+
+def logical_not(a):
+    if isinstance(a, SArr):
+        return ~a
+    from .core import SBool
+    if isinstance(a, (bool, SBool)):
+        return not a if isinstance(a, bool) else ~a
+    raise Unsupported('logical_not of %r' % type(a))
+
+
 def nansum(a, axis=None):
     if isinstance(a, SArr) and a.nan is not None:
         z = ZERO[a.kind]
@@ -1502,7 +1537,7 @@ def isscalar(x):
     return not isinstance(x, SArr)
 
 
-_EXPORTS.update({'abs': abs_, 'sum': sum_, 'round': round_, 'all': all_, 'any': any_, 'max': amax, 'min': amin})
+_EXPORTS.update({'abs': abs_, 'sum': _sum_keep, 'round': round_, 'all': all_, 'any': any_, 'max': amax, 'min': amin})
 
 
 def _guard_signatures():
